@@ -353,11 +353,91 @@ def r5_c_bound(L, repo, spec):
     L.require("C13.R5", F, "Msg", "KNOWN_VERSIONS", spec["known_versions"], list(kv))
 
 
+def r1_witness_fold(L, repo, spec):
+    """R1 decided on boundary witnesses when the accepted-set extraction leaves its vocabulary (a `try` around a property,
+    a helper with its own control flow): validate() is folded by the evaluator for one valid base message per scenario and,
+    for every field, the values just inside and just outside its protocol range and None - it must raise ValueError
+    exactly for the values outside (version witnesses: -1, 0, 1, 2, 15, 16, 100).  The decision procedure of validate() is
+    comparisons of one field with constants, so its verdict is constant between the boundaries probed."""
+    from consteval import Ev, Raised, Arr
+    mod = repo.mod("data_msg")
+    mci = repo.need_class("data_msg", "Modulation")
+    members = {m.name: m for m in Ev(repo, mod).enum_members(mci)}
+    n = 0
+
+    def verdict(ci, flds):
+        e = Ev(repo, ci.mod, env={"self." + k: v for k, v in flds.items()}, self_cls=ci)
+        e.ignore_calls = ("log.", "logging.")
+        c, v = repo.find_method(ci, "validate")
+        try:
+            e.call_func(v, c.mod, [("self", "<self>")], self_cls=ci, writeback=False)
+            return "accepted"
+        except Raised as ex:
+            return "raises %s" % ex.cls
+        except Unknown as ex:
+            raise AnalysisError("validate() does not fold on a witness: %s" % ex)
+    scen = []
+    tx = spec["TxMsg"][0]
+    for ver in (0, 1):
+        scen.append(("TxMsg", "Tx v%d" % ver, {"ver": ver, "fn": 1000, "tn": 3, "pwr": 10, "burst": bytearray([1, 0] * 74)},
+                     {"fn": tx["fn"], "tn": tx["tn"], "pwr": tx["pwr"]}, [148, 444], lambda n_: bytearray([1] * n_)))
+    for sc in spec["RxMsg"]:
+        if sc["name"] == "Rx v0":
+            scen.append(("RxMsg", "Rx v0", {"ver": 0, "fn": 1000, "tn": 3, "rssi": -60, "toa256": 0, "burst": Arr("b", [1] * 148)},
+                         {k: sc[k] for k in ("fn", "tn", "rssi", "toa256")}, [148, 444], lambda n_: Arr("b", [1] * n_)))
+        elif sc["name"] == "Rx v1 NOPE":
+            scen.append(("RxMsg", "Rx v1 NOPE", {"ver": 1, "fn": 1000, "tn": 3, "rssi": -60, "toa256": 0, "ci": 0, "nope_ind": True, "burst": None},
+                         {k: sc[k] for k in ("fn", "tn", "rssi", "toa256", "ci")}, None, None))
+        elif sc["name"] == "Rx v1 burst":
+            for mname, bl in sorted(spec["modulation_burst_len"].items()):
+                if mname not in members:
+                    continue
+                rng = {k: sc[k] for k in ("fn", "tn", "rssi", "toa256", "ci", "tsc")}
+                rng["tsc_set"] = sc["per_modulation"]["tsc_set"]["GMSK" if mname == "ModGMSK" else "other"]
+                scen.append(("RxMsg", "Rx v1 burst/%s" % mname, {"ver": 1, "fn": 1000, "tn": 3, "rssi": -60, "toa256": 0, "ci": 0, "nope_ind": False,
+                                                                 "mod_type": members[mname], "tsc_set": 0, "tsc": 0, "burst": Arr("b", [1] * bl)},
+                             rng, [bl], lambda n_: Arr("b", [1] * n_)))
+    for cls, title, base, ranges, lens, mkburst in scen:
+        ci = repo.need_class("data_msg", cls)
+        L.fn(F, cls + ".validate")
+        got = verdict(ci, base)
+        n += 1
+        L.require("C13.R1", F, cls + ".validate", "witness fold, %s: a message with every field inside its range validates" % title, "accepted", got)
+        for f, (lo, hi) in sorted(ranges.items()):
+            for v, want in ((lo - 1, "raises ValueError"), (lo, "accepted"), (hi, "accepted"), (hi + 1, "raises ValueError"), (None, "raises ValueError")):
+                fl = dict(base)
+                fl[f] = v
+                n += 1
+                L.require("C13.R1", F, cls + ".validate", "witness fold, %s: %s = %s" % (title, f, v), want, verdict(ci, fl))
+        for v in (-1, 2, 15, 16, 100, None):
+            fl = dict(base)
+            fl["ver"] = v
+            n += 1
+            L.require("C13.R1", F, cls + ".validate", "witness fold, %s: header version %s instead of %s" % (title, v, base["ver"]), "raises ValueError", verdict(ci, fl))
+        if lens:
+            for bl in sorted({x + d for x in lens for d in (-1, 0, 1)} | {0}):
+                fl = dict(base)
+                fl["burst"] = mkburst(bl)
+                n += 1
+                L.require("C13.R1", F, cls + ".validate", "witness fold, %s: burst of %d elements" % (title, bl),
+                          "accepted" if bl in lens else "raises ValueError", verdict(ci, fl))
+    L.floor("C13.R1", "validate() witnesses folded", n, 150)
+
+
+def _r1_stage(L, repo, spec):
+    try:
+        return r1_r2(L, repo, spec)
+    except AnalysisError as ex:
+        # the symbolic extraction left its vocabulary: decide on the boundary witnesses, keep the reason
+        L.extra["c13_r1_extraction"] = "not applicable: %s" % str(ex)[:160]
+        return r1_witness_fold(L, repo, spec)
+
+
 def run(L, tier):
     repo = Repo(L.repo)
     with open(os.path.join(VERIF, "spec", "ranges.json")) as f:
         spec = json.load(f)
-    L.stage(r1_r2, L, repo, spec)
+    L.stage(_r1_stage, L, repo, spec)
     L.stage(r3_validate_first, L, repo)
     L.stage(r4_send, L, repo, tier)
     L.stage(r5_c_bound, L, repo, spec)
